@@ -221,12 +221,15 @@ class Select(TypedExpression):
 
     def _default_with_comments(self, indent: int) -> str:
         assert self.default is not None
-        default_str = self.default.rebuild(indent=indent, inline=True)
         if not self.default_after_or:
-            return default_str
+            return self.default.rebuild(indent=indent, inline=True)
         lead = self._comments_then(
             self.default_after_or, self.default_after_or_gap, indent + 2
         )
+        # Comments on lines of their own push the default onto a deeper line:
+        # its own inner lines and closing delimiter follow it there.
+        default_indent = indent + 2 if "\n" in lead else indent
+        default_str = self.default.rebuild(indent=default_indent, inline=True)
         return f"{lead.lstrip(' ')}{default_str}"
 
     @staticmethod
